@@ -74,6 +74,7 @@ def build(case):
     lay = vbuild.Lay(case.get("orders"))
     e = lay([p[0] for p in xy], shape)
     n = lay([p[1] for p in xy], shape)
+    e, n = blocks.pixel_array(case["layout"], e), blocks.pixel_array(case["layout"], n)
     coords = (e, n) + tuple(lay(x, shape) for x in case["extra"])
     data = tuple(lay(d, shape) for d in case["data"])
     weights = None
